@@ -22,7 +22,7 @@ RULE = ("case = (IR-set spec, reported state, requested subset with values, upda
 ASSUMPTIONS = [
     "thermostat state-reply layout and frame layouts of DESIGN appendix A; IR lookup semantics of C15's reference (cases it leaves unspecified are skipped)",
     "target_temp=0 and None mean 'omitted' (the API's defaults)",
-    "an empty reply is an EOF from the device",
+    "an empty reply is an EOF from the device (real socket semantics) or, in half of the fault cases, a single read() that yields b'' while the stream goes on (the unit tests' notion; injected by wrapping the instance's reader, skipped if that private attribute is not reachable)",
 ]
 
 SETTINGS = ["state", "mode", "target", "fan", "swing"]
@@ -88,6 +88,21 @@ async def exchange(case, script):
     await cl.connect()
     try:
         dev.set_script(script)
+        k = case.get("empty_read")
+        if k is not None:
+            # "empty reply" in the sense the unit tests use: one read() yields b'' although the stream goes on.
+            # Harness-side wrapper of the instance's reader (private attribute; skipped when it is not there).
+            rd = getattr(cl.api, "_reader", None)
+            if rd is None or not hasattr(rd, "read"):
+                return "skip", None, []
+            orig, count = rd.read, [0]
+
+            async def read(n=-1):
+                data = await orig(n)
+                i = count[0]
+                count[0] += 1
+                return b"" if i == k else data
+            rd.read = read
         remote, _ = ops.remote_for(case["ir"])
         kw = ops.breeze_kwargs(case["req"])
         if case.get("update"):
@@ -123,6 +138,9 @@ def body(rep, case, sub="dense"):
     fault = case.get("fault")
     if fault is not None:
         labels.append(f"eof@step{fault}")
+    empty_read = case.get("empty_read")
+    if empty_read is not None:
+        labels.append(f"empty-read@step{empty_read}")
     if mdl[0] == "skip":
         rep.label("unspecified-by-C15-skipped")
         return
@@ -133,8 +151,23 @@ def body(rep, case, sub="dense"):
             rep.label("fault-step-beyond-exchange-skipped")
             return
         script[fault] = {"eof": True}
+    if empty_read is not None and empty_read >= len(exp_frames):
+        rep.label("fault-step-beyond-exchange-skipped")
+        return
     rep.tick(sub, key=case, nontrivial=nt, sample=case, labels=labels)
     status, res, frames = net.run(exchange(case, script))
+    if status == "skip":
+        rep.label("reader-not-accessible-skipped")
+        return
+    if empty_read is not None:
+        if status == "raise":
+            if not isinstance(res, RuntimeError):
+                raise Violation(f"C16/empty-reply/raises-{type(res).__name__}/step{empty_read}", case,
+                                "RuntimeError or unsuccessful response", f"{type(res).__name__}: {res}")
+        elif status == "ok" and getattr(res, "successful", None) is not False:
+            raise Violation(f"C16/empty-reply/reports-success/step{empty_read}/" + ("special" if special else "ordinary"), case,
+                            "RuntimeError or unsuccessful response", repr(res)[:160])
+        return
     tag = ("special" if special else "ordinary") + ("/update" if case.get("update") else "/command")
     if status == "timeout":
         raise Violation(f"C16/hang/{tag}", case, "completes", "timeout")
@@ -202,11 +235,13 @@ def strat(dense, faults):
             # the device may report (and the caller may ask for) a mode the remote does not support: error path
             modes = ALLMODES if not dense else spec["modes"]
             return st.builds(
-                lambda cur, req, update, fault, dev, sess, ts, salt: {
-                    "ir": spec, "cur": cur, "req": req, "update": update, "fault": fault, "device_id": dev, "session": sess,
-                    "ts": ts, "salt": salt},
+                lambda cur, req, update, fault, dev, sess, ts, salt, transient: dict({
+                    "ir": spec, "cur": cur, "req": req, "update": update, "fault": None if transient else fault,
+                    "device_id": dev, "session": sess, "ts": ts, "salt": salt},
+                    **({"empty_read": fault} if transient and fault is not None else {})),
                 cur_states(modes), requests(modes), st.booleans(),
-                st.integers(0, 3) if faults else st.none(), gen.device_ids, gen.sessions, gen.timestamps, st.integers(1, 100))
+                st.integers(0, 3) if faults else st.none(), gen.device_ids, gen.sessions, gen.timestamps, st.integers(1, 100),
+                st.booleans() if faults else st.just(False))
         return specs.flatmap(with_spec)
     return build
 
